@@ -209,7 +209,7 @@ def gen_sliver2(rng):
 DEC_SIDES = [F(1, 10), F(3, 10), F(7, 10), F(11, 10), F(7, 100), F(13, 10), F(9, 10), F(17, 100)]
 DEC_RATIOS = [F(1, 10), F(3, 10), F(1, 2), F(6, 10), F(7, 10), F(9, 10)]
 BIGDEC_QUICK = [(1026, "refine"), (1025, "uniform"), (1024, "griddify")]
-BIGDEC_TARGETS = [1000, 1001, 1002, 1010, 1023, 1024, 1025, 1026, 1040, 1056, 1089, 1100, 1000, 1001, 2048, 2049, 4100]
+BIGDEC_TARGETS = [1000, 1001, 1002, 1024, 1026, 1056, 1100, 1001, 2048, 4100]
 
 
 def _dec_cell(x0, y0, w, h, al, depth=0, fixed=False):
@@ -295,7 +295,7 @@ def gen_big_decimal(rng, target, op, follow=True, exact=False):
         cells.append(_dec_cell(ox + W, oy + H, s, s2, high()))
         ops = [["griddify"]]
     rng.shuffle(cells)
-    if follow and rng.random() < 0.35 and target <= 1100:
+    if follow and rng.random() < 0.25 and target <= 1100:
         ops.append(rng.choice([["griddify"], ["uniform"], ["refine", F(0), 1], ["refine", t, 1]]))
     return {"kind": f"{'exact' if exact else 'decimal'}-big-{op}", "stream": "decimal", "big": 2 * target + 200, "cells": cells, "ops": ops,
             "ths": [F(0), t, F(1)] if len(cells) <= 100 else [], "eps": None, "aeps": None}
